@@ -340,6 +340,21 @@ def ids(seq):
     return [id(x) for x in seq]
 
 
+_RETAINED = {}  # id(container) -> (container, keys() view, items() view) taken when the container was first looked at
+
+
+def retained_views(l):
+    ent = _RETAINED.get(id(l))
+    if ent is None or ent[0] is not l:
+        if len(_RETAINED) > 16:
+            _RETAINED.clear()
+        try:
+            ent = _RETAINED[id(l)] = (l, l.keys(), l.items())
+        except Exception:
+            return None
+    return ent
+
+
 def compare_view(U, l, L, probes, check_derived_of=None):
     """Return list of (observation name, real, model) mismatches."""
     kf = U.kf
@@ -361,6 +376,11 @@ def compare_view(U, l, L, probes, check_derived_of=None):
     # keys() / items() enumerate the items in list order ("agrees with a linear scan of the list")
     chk("list(l.keys())", obs(lambda: list(l.keys())), ("ok", [kf(it) for it in L]))
     chk("list(l.items())", obs(lambda: [(k, id(v)) for k, v in l.items()]), ("ok", [(kf(it), id(it)) for it in L]))
+    # ... also through views handed out earlier (taken the first time this container was looked at)
+    ent = retained_views(l)
+    if ent is not None:
+        chk("list(<keys() view taken earlier>)", obs(lambda: list(ent[1])), ("ok", [kf(it) for it in L]))
+        chk("list(<items() view taken earlier>)", obs(lambda: [(k, id(v)) for k, v in ent[2]]), ("ok", [(kf(it), id(it)) for it in L]))
     chk("l == list", obs(lambda: l == list(L)), ("ok", True))
     n = len(L)
     for key in probes["keys"]:
